@@ -33,3 +33,16 @@ package tools
 //@   ensures  result == (exists i: int :: 0 <= i && i < len(haystack) && haystack[i] == needle)
 //@   loop 0:
 //@     invariant none: forall i: int :: 0 <= i && i <= $i ==> haystack[i] != needle
+//
+// C04 - the two "constant pattern" helpers are a protocol: ConstantStringFromRegex slices one character off
+// each end and may only be called on a pattern RegexMatchesConstantString accepted (which starts with ^ and
+// ends with $, so it has at least two characters - the two tests look at different characters only then).
+//@ func RegexMatchesConstantString
+//@   property C04
+//@   modifies nothing
+//@   ensures  twochars: result ==> len(regex) >= 2
+//
+//@ func ConstantStringFromRegex
+//@   property C04
+//@   requires accepted: len(regex) >= 2
+//@   modifies nothing
